@@ -74,7 +74,7 @@ def build_driver(module, want, build, workdir):
         return None, "rejected", err
     with open(os.path.join(workdir, "m.emb.h"), "w") as f:
         f.write(header)
-    src = drv.DriverGen(module, want).generate("m.emb.h")
+    src = drv.DriverGen(module, want, aligned=build.get("aligned", 0)).generate("m.emb.h")
     with open(os.path.join(workdir, "driver.cc"), "w") as f:
         f.write(src)
     r = subprocess.run([CXX] + build_flags(build) + ["driver.cc", "-o", "driver"], cwd=workdir,
@@ -345,6 +345,8 @@ def _probe_observation(exp, got, counters):
     def c(k):
         counters["probe." + k] = counters.get("probe." + k, 0) + 1
 
+    if exp.get("aligned"):
+        c("aligned_view_observed")
     if got.get("v.size_known") == "0":
         c("size_unknown")
     if got.get("v.size_known") == "1" and got.get("v.complete") == "0":
@@ -482,7 +484,7 @@ def _first_error(msg):
 
 
 def draw_build(rng):
-    return {"std": rng.choice([11, 14, 17]), "no_opt": rng.random() < 0.3}
+    return {"std": rng.choice([11, 14, 17]), "no_opt": rng.random() < 0.3, "aligned": rng.choice([0, 0, 0, 4, 8])}
 
 
 def run_one(task):
@@ -490,6 +492,7 @@ def run_one(task):
     rng = core.rng_for(prop + ":B", seed, index)
     module = gen.gen_module(rng)
     build = draw_build(rng)
+    cfg = dict(cfg, aligned=build["aligned"])
     scenarios = scenarios_for(prop, rng, module, cfg)
     workdir = os.path.join(task["scratch"], f"run{index}")
     t0 = time.monotonic()
